@@ -410,6 +410,39 @@ def gen_method(m):
 ALL_GENS = [(1, gen_method(m)) for m in gen.METHODS]
 
 
+def allow_groups(rnd):
+    """majority with draws allowed over few distinct values: tie groups of every small size stacked on each other (2 over 3, 3 over 5, ...)"""
+    n = rnd.choice([4, 5, 5, 6, 7, 8, 9, 11])
+    cids = rnd.sample(gen.CRIT_IDS, 2)
+    alts = [{'id': i, 'criteria': {c: float(rnd.randint(0, 2)) for c in cids}} for i in rnd.sample(gen.ALT_IDS, n)]
+    mp = {'weights': {c: 1.0 for c in cids}, 'drawResolution': 'allow', 'randomSeed': rnd.randint(0, 10 ** 6),
+          'randomAlternativesOrdering': rnd.random() < 0.3}
+    if rnd.random() < 0.25:
+        mp['currentChoice'] = rnd.choice(alts)['id']
+    return {'preferenceFunction': 'majorityHeuristic', 'knownAlternatives': alts, 'choseToMake': [a['id'] for a in alts],
+            'criteria': [{'id': c, 'type': 'gain'} for c in cids], 'methodParameters': mp, 'biases': [], 'biasApplyRandomSeed': 0}
+
+
+def stacked_groups(rnd):
+    """majority with draws allowed on data built as strictly ordered groups of identical alternatives, listed from the worst group
+    up: the result is a stack of tie groups of chosen sizes (3 under 2, 5 under 3, 7 under 2, ...; slices grown by append have
+    spare capacity at exactly such lengths)"""
+    sizes = [rnd.choice([1, 2, 3, 3, 5, 6, 7]) for _ in range(rnd.choice([2, 3, 3, 4]))]
+    cids = rnd.sample(gen.CRIT_IDS, 2)
+    ids = ['g%02d' % i for i in range(sum(sizes))]
+    rnd.shuffle(ids)
+    alts, k = [], 0
+    for level, sz in enumerate(sizes):
+        for _ in range(sz):
+            alts.append({'id': ids[k], 'criteria': {c: float(level) for c in cids}})
+            k += 1
+    if rnd.random() < 0.3:
+        alts.reverse()
+    mp = {'weights': {c: 1.0 for c in cids}, 'drawResolution': 'allow', 'randomSeed': rnd.randint(0, 10 ** 6), 'randomAlternativesOrdering': rnd.random() < 0.2}
+    return {'preferenceFunction': 'majorityHeuristic', 'knownAlternatives': alts, 'choseToMake': [a['id'] for a in alts],
+            'criteria': [{'id': c, 'type': 'gain'} for c in cids], 'methodParameters': mp, 'biases': [], 'biasApplyRandomSeed': 0}
+
+
 def no_criteria_left(rnd):
     """requests the method finally evaluates without any criterion: declared that way, or every criterion omitted by a bias"""
     req = gen.any_request(rnd, rnd.choice(gen.METHODS + ['weightedSum', 'weightedSum', 'owa']))
@@ -436,7 +469,7 @@ def no_criteria_left(rnd):
 def c01(ctx):
     return method_check(
         ctx, 'C01', ALL_GENS + [(2, gen_method('majorityHeuristic')), (2, gen_method('aspectEliminationHeuristic')), (2, gen_method('satisfactionHeuristic')),
-                                (4, gen_biased()), (1, no_criteria_left), (0.15, lambda rnd: gen.many_alternatives_request(rnd)),
+                                (4, gen_biased()), (1, no_criteria_left), (1, allow_groups), (1, stacked_groups), (0.15, lambda rnd: gen.many_alternatives_request(rnd)),
                                 (0.15, lambda rnd: gen.add_biases(rnd, gen.many_alternatives_request(rnd), prob_mix=False)),
                                 (2, lambda rnd: gen.biased_request(rnd, method=rnd.choice(gen.HEURISTICS), prob_mix=False))], 450, 8000,
         'random valid requests over the seven methods (the three heuristics over-weighted: tie groups under every draw policy), currentChoice '
@@ -636,7 +669,7 @@ def c11_concurrent(ctx):
 def c11(ctx):
     ctx.before_finish = c11_concurrent
     return method_check(
-        ctx, 'C11', [(2, gen_method('majorityHeuristic')), (1, (lambda rnd: gen.biased_request(rnd, method='majorityHeuristic', prob_mix=False))),
+        ctx, 'C11', [(2, gen_method('majorityHeuristic')), (1, (lambda rnd: gen.biased_request(rnd, method='majorityHeuristic', prob_mix=False))), (1, allow_groups), (1, stacked_groups),
                      (0.04, lambda rnd: gen.many_alternatives_request(rnd, 'majorityHeuristic'))], 300, 6000,
         'random majority requests: all four draw policies, seeded order, three positions of currentChoice, value ties within 1e-6, '
         'equal and mixed weights; plus batches of 48 draw-heavy majority requests with mixed draw policies served concurrently, every answer '
@@ -1246,7 +1279,11 @@ def c06(ctx):
 def c08(ctx):
     def g(rnd):
         req = gen.any_request(rnd)
-        return gen.add_biases(rnd, req, length=rnd.choice([1, 2, 3, 4, 5]), prob_mix=True, disabled_prob=0.25)
+        req = gen.add_biases(rnd, req, length=rnd.choice([1, 2, 3, 4, 5]), prob_mix=True, disabled_prob=0.25)
+        if rnd.random() < 0.08:
+            for b in req['biases']:
+                b['disabled'] = True
+        return req
 
     def meta(ctx2):
         rnd = ctx2.rnd
@@ -1257,8 +1294,18 @@ def c08(ctx):
                 continue
             en = e2e.enabled_biases(req)
             if not en:
+                # every requested bias is disabled: `biases` is the list of the entries of the enabled ones - an empty list, as for the
+                # request that leaves them out (compared as JSON: null is not [])
+                ctx2.count('metamorphic/all-disabled')
+                if base['resp'].get('biases') != []:
+                    ctx2.violation('no bias is enabled, yet `biases` in the response is not the empty list',
+                                   {'request': req, 'biases_in_response': base['resp'].get('biases', '<absent>')}, {})
+                o0 = ctx2.pipe.call({'op': 'decide', 'req': dict(req, biases=[])})
+                if o0.get('resp') != base.get('resp'):
+                    ctx2.violation('a request whose biases are all disabled is answered differently from the request without them',
+                                   {'request': req, 'response': base.get('resp'), 'without_them': o0.get('resp') or o0.get('err')}, {})
                 continue
-            if len(base['resp']['biases']) != len(en):
+            if not isinstance(base['resp'].get('biases'), list) or len(base['resp']['biases']) != len(en):
                 ctx2.violation('the response does not echo one entry per non-disabled bias', {'request': req, 'echo': base['resp']['biases']}, {})
                 continue
             fired = [b.get('props') is not None for b in base['resp']['biases']]
